@@ -5,6 +5,7 @@
 #ifndef WIRE_H
 #define WIRE_H
 #include "hlib.h"
+#include <sys/select.h>
 
 #define CAPMAX 64
 struct capture {
@@ -17,6 +18,8 @@ struct capture {
 extern struct capture cap[CAPMAX];
 extern int cap_count;			/* datagrams captured since cap_reset() */
 void cap_reset(void);
+extern void (*wire_sendto_hook)(int fd, const void *buf, size_t len, const struct sockaddr *to, socklen_t tolen);
+extern int (*wire_select_hook)(int nfds, fd_set *rfds, struct timeval *tv);
 
 /* datagram injected into the next recvfrom()/recvmsg(); residue fills the rest of the buffer */
 extern unsigned char inj_data[65536];
@@ -49,7 +52,9 @@ void srv_tunnel_dns(void);			/* tunnel_dns on the injected datagram */
 void srv_tunnel_tun(void);
 void srv_set_ns_ip(const unsigned char *ip4);	/* NULL: INADDR_ANY */
 void srv_set_bind_port(int port);
-void srv_sweep(void);				/* the send-real-soon sweep of tunnel() */
+void srv_sweep(void);
+void srv_sweep_clear(void);
+void srv_sweep_send(void);				/* the send-real-soon sweep of tunnel() */
 void srv_handle_null_request(struct query *q, int domain_len);
 const char *srv_topdomain(void);
 struct tun_user *srv_user(int i);
